@@ -14,8 +14,13 @@ cd "$WT"
 git checkout -q -- . ; git apply "$OUT/patch.diff" && echo "patch applies to pinned commit"
 git status --short | grep -v '^??'
 echo "== tests with change"
-cargo test --workspace --no-fail-fast --offline 2>&1 | grep -E "^test result|FAILED|failed|panicked" | sort | uniq -c
-echo "suite exit: ${PIPESTATUS[0]}"
+cargo test --workspace --no-fail-fast --offline > /tmp/seed/suite_$ID.log 2>&1; rc=$?
+if [ $rc -ne 0 ] && grep -q "Failed to find eqlog runtime rlib" /tmp/seed/suite_$ID.log; then
+  echo "(first run hit the repository's build-script race 'Failed to find eqlog runtime rlib'; running the suite again)"
+  cargo test --workspace --no-fail-fast --offline > /tmp/seed/suite_$ID.log 2>&1; rc=$?
+fi
+grep -E "^test result|FAILED|failed|panicked" /tmp/seed/suite_$ID.log | sort | uniq -c
+echo "suite exit: $rc"
 echo "== demo with change"
 rm -rf "$OUT/demo/target"
 bash "$OUT/demo/run.sh" "$WT" 2>&1 | tail -n 15; echo "demo rc with change=${PIPESTATUS[0]}"
